@@ -12,7 +12,7 @@ RULE = ('Grid: ping_interval {25, 1, 0.5, 1.5, 2.75, (25,5), (1.5,0.25), (10,0)}
         '{20, 1, 0.5, 2.5} x max_http_buffer_size {1000000, 1, 12345} x allow_upgrades x '
         'transports {default, polling, websocket, both} x cookie {none, name, dict with string / '
         'True / False / callable attributes} x connect-handler outcome {None, True, False, 0, "", '
-        'text, dict, list, raise} x open kind {polling, websocket} x JSONP {off, on} x server '
+        'text, dict, list, 1, 1.0, raise} x open kind {polling, websocket} x JSONP {off, on} x server '
         '{threaded, asyncio}; each cell opens a session on a fresh server whose connect handler '
         'sends 0, 1 or 2 messages to the new session (number derived from the cell). Oracle: first packet is '
         'OPEN with the handler sid, pingInterval == (interval+grace)*1000, pingTimeout == '
@@ -34,12 +34,14 @@ BUFFERS = [1000000, 1, 12345]
 UPGRADES = [True, False]
 TRANSPORTS = [None, ['polling'], ['websocket'], ['polling', 'websocket']]
 COOKIES = ['none', 'name', 'dict-str', 'dict-mixed']
-OUTCOMES = ['none', 'true', 'false', 'zero', 'empty', 'text', 'dict', 'list', 'raise']
+OUTCOMES = ['none', 'true', 'false', 'zero', 'empty', 'text', 'dict', 'list', 'raise', 'one',
+            'one-float']
 KINDS = ['polling', 'websocket']
 JSONP = [None, 5]
 IMPLS = ['thread', 'async']
 OUTCOME_VALUE = {'none': None, 'true': True, 'false': False, 'zero': 0, 'empty': '',
-                 'text': 'go away', 'dict': {'error': 'no', 'code': 7}, 'list': [1, 'x']}
+                 'text': 'go away', 'dict': {'error': 'no', 'code': 7}, 'list': [1, 'x'],
+                 'one': 1, 'one-float': 1.0}      # (equal to True, but not True)
 
 
 def V(impl, clause, trigger, detail, case):
@@ -143,7 +145,7 @@ def check_rejected(w, impl, r, kind, outcome, hsid, rep, trig):
             raise V(impl, 'rejected-open-not-401', trig + '|got=%s' % r.status,
                     'connect handler rejected (%s) but the answer is %s %r' % (
                         outcome, r.status, r.resp_body), rep)
-        if outcome in ('text', 'dict', 'list'):
+        if outcome in ('text', 'dict', 'list', 'one', 'one-float'):
             try:
                 body = json.loads(r.resp_body.decode())
             except Exception:
